@@ -160,7 +160,14 @@ cdef class LegacyRecordBatch:
             char* buf
         buf = <char*> self._buffer.buf
         while pos < buffer_len:
+            if pos + LOG_OVERHEAD > buffer_len:
+                raise CorruptRecordException("Corrupted compressed message")
             length = <Py_ssize_t> hton.unpack_int32(&buf[pos + LENGTH_OFFSET])
+            if length < RECORD_OVERHEAD_V0_DEF:
+                # A message is never shorter than its own header; following
+                # such a length would not advance (or move backwards).
+                raise CorruptRecordException(
+                    "Invalid message size in compressed message set")
             pos += LOG_OVERHEAD + length
         if pos > buffer_len:
             raise CorruptRecordException("Corrupted compressed message")
